@@ -28,6 +28,31 @@ theorem mem_getElem?_window (mem : List α) (h : Hdr) (j : Nat) (hj : j < h.len)
     mem[h.off + j]? = (window mem h)[j]? := by
   simp [window, hj]
 
+/-! ### writing a window back -/
+
+theorem store_length (mem : List α) (h : Hdr) (hw : h.WF mem.length) (w : List α) (hl : w.length = h.len) :
+    (store mem h w).length = mem.length := by
+  unfold Hdr.WF at hw
+  simp only [store, List.length_append, List.length_take, List.length_drop, hl]; omega
+
+theorem store_take (mem : List α) (h : Hdr) (hw : h.WF mem.length) (w : List α) :
+    (store mem h w).take h.off = mem.take h.off := by
+  unfold Hdr.WF at hw
+  have : (mem.take h.off).length = h.off := by simp; omega
+  rw [store, List.append_assoc, List.take_left' this]
+
+theorem store_drop (mem : List α) (h : Hdr) (hw : h.WF mem.length) (w : List α) (hl : w.length = h.len) :
+    (store mem h w).drop (h.off + h.len) = mem.drop (h.off + h.len) := by
+  unfold Hdr.WF at hw
+  have : (mem.take h.off ++ w).length = h.off + h.len := by simp [hl]; omega
+  rw [store, List.drop_left' this]
+
+theorem window_store (mem : List α) (h : Hdr) (hw : h.WF mem.length) (w : List α) (hl : w.length = h.len) :
+    window (store mem h w) h = w := by
+  unfold Hdr.WF at hw
+  have h1 : (mem.take h.off).length = h.off := by simp; omega
+  rw [window, store, List.append_assoc, List.drop_left' h1, ← hl, List.take_left' rfl]
+
 /-! ### slicing expressions on natural-number bounds -/
 
 theorem slice3_nat (h : Hdr) (i e m : Nat) (h1 : i ≤ e) (h2 : e ≤ m) (h3 : m ≤ h.cap) :
